@@ -74,6 +74,9 @@ pub fn action_texts() -> Vec<String> {
         "say x at 0 at 0\n",
         "say x is y\n",
         "say x at 1 is y at 1\n",
+        // against null an array counts as its sequence length, whatever keys it has
+        "say x is nothing\nsay nothing is x\n",
+        "say x is as low as nothing\n",
         // the array is read before its subscript is evaluated
         "say x at roll x\n",
         "put x at roll x into y\n",
